@@ -28,8 +28,9 @@ def gen_case(rng):
         if r < 0.25 and pre:
             uid += 1
             pre_lines = gen_docs(rng, uid)
-            for d in pre_lines:
-                lines.append(f"{ind}!{pre}{d}")
+            mixed = rng.random() < 0.4     # the pre-marker is only required on the first line
+            for i, d in enumerate(pre_lines):
+                lines.append(f"{ind}!{pre}{d}" if (i == 0 or not mixed) else f"{ind}!{doc}{d}")
             while rng.random() < 0.25:
                 lines.append(rng.choice(["", "  ", ind + "! ordinary"]))
         elif r < 0.5 and prealt:
